@@ -307,7 +307,7 @@ def stage_qha(ctx, rd):
     importlib.reload(Q)
     rng = ctx.rng
     quick = ctx.tier == "quick"
-    nsets = 22 if quick else 60
+    nsets = 22 if quick else 150
     max_lines = 1500 if quick else 7400
     shard_lines = 2600
     cases = []
@@ -446,7 +446,7 @@ def damage(rng, text):
 def stage_qha_reader(ctx, rd):
     import cij.io.traditional.qha_input as Q
     rng = ctx.rng
-    n = 40 if ctx.tier == "quick" else 160
+    n = 40 if ctx.tier == "quick" else 600
     recs = []
     for i in range(n):
         nv, nq, np_ = rng.randint(1, 3), rng.randint(1, 3), rng.randint(1, 5)
@@ -672,7 +672,7 @@ def stage_elast(ctx, rd):
     import cij.io.traditional.elast_dat as E
     importlib.reload(E)
     rng = ctx.rng
-    n = 120 if ctx.tier == "quick" else 600
+    n = 120 if ctx.tier == "quick" else 2500
     recs = []
     for i in range(n):
         kind = rng.choice(["plain", "plain", "plain", "short", "long", "nvplus"])
@@ -789,7 +789,7 @@ def stage_fill(ctx, rd):
     importlib.reload(F)
     from click.testing import CliRunner
     rng = ctx.rng
-    reps = 2 if ctx.tier == "quick" else 8
+    reps = 2 if ctx.tier == "quick" else 20
     recs = []
     cwd = os.getcwd()
     os.chdir(rd)          # fill_cij looks for a path named like the system in the cwd
